@@ -132,6 +132,8 @@ VH_DRIVER(algebra){
       for(long i=0;i<extra;++i){ Text r; int kind=R.below(8); if(kind==0) r=T("s:"); else if(kind==1) r=T("//h"); if(kind==1||R.below(5)==0) r.push_back('/'); int n=1+R.below(9); for(int j=0;j<n;++j){ if(j) r.push_back('/'); r=r+T(segs[R.below(11)]); }
         unsigned m= (i%3)? 63u : 8u; AW(true,i%2,[&]{ normalize_event<ApiA>(r,m,(i%4)<2,(int)(i%3)); },[&]{ normalize_event<ApiW>(r,m,(i%4)<2,(int)(i%3)); }); } }
   } else if(mode=="c09"){
+    // the witness of known finding KF-C09-1 is replayed first on every run (known_findings.json), so the entry is shown to still reproduce
+    if(!g.pair){ c09_event<ApiA>(T("abc/.."),T("s://g/x/y")); c09_event<ApiW>(T("abc/.."),T("s://g/x/y")); normalize_event<ApiA>(T("abc/.."),8,false,1); }
     size_t total=refs.size()*bases.size(); double keep= total>(size_t)want? (double)want/total:1.0; long k=0;
     for(auto&r:refs){ if(has_pct_dot(r)) continue; for(auto&b:bases){ ++k; if(b.empty()||b[0]!='s') continue; if(keep<1.0 && (R.next()%1000000)>=keep*1000000) continue; AW(true,k%2,[&]{ c09_event<ApiA>(r,b); },[&]{ c09_event<ApiW>(r,b); });
       if(k%4001==0) g.sample(J().str("ref",show(r)).str("base",show(b)).done()); } }
